@@ -6,7 +6,10 @@ export CARGO_NET_OFFLINE=true
 cd "$ROOT/harness" || exit 1
 [ -f Cargo.lock ] || cp /repo/Cargo.lock Cargo.lock
 mkdir -p "$ROOT/evidence/tmp" "$ROOT/evidence/replay"
-cargo build --offline --release -p checks --bins 2>&1 | tail -3
+# one cargo invocation for all claimed checks' binaries (shared dependency build)
+BINS=$(jq -r '.checks[].property_id' "$ROOT/MANIFEST.json" | tr 'A-Z' 'a-z' | sed 's/^/--bin /' | tr '\n' ' ')
+cargo build --offline --release -p checks $BINS 2>&1 | tail -3
+# packages with their own feature sets: separate invocations (no feature unification)
 cargo build --offline --release -p c01cap 2>&1 | tail -1
 cargo build --offline --release -p c18log 2>&1 | tail -1
 if [ -x "$ROOT/harness/extra/setup.sh" ]; then "$ROOT/harness/extra/setup.sh"; fi
